@@ -12,10 +12,10 @@
   issues one `mkdir` per missing component; an error → `throw_error` (exit 1).
   `fs_provider::write_file(p, data)`:
       std::ofstream os{p, binary|out};            -- fopen(p, "w"): create/truncate
-      if(!os) throw_error("can't open file");     -- the ONLY check
-      os << data;                                 -- write()/writev(); a failure sets badbit,
-                                                  --   which nobody looks at
-  }                                               -- ~ofstream: flush + fclose, errors swallowed
+      if(!os) throw_error("can't open file");
+      os << data;                                 -- write()/writev(); a failure sets badbit
+      os.close();                                 -- flush + fclose; a failure sets failbit
+      if(!os) throw_error("can't write file");    -- badbit or failbit
   `main`: exit status 1 iff an `sbe_error` was thrown, else 0.
 
   The plan (directories, and files with their contents in emission order) is a
@@ -65,7 +65,7 @@ structure St where
   nOpen : Nat := 0
   nWrite : Nat := 0
   nClose : Nat := 0
-  fired : List (Family × Nat) := []   -- faults that were actually delivered
+  fired : List (Family × Nat × Mode) := []   -- faults that were actually delivered
   deriving Repr, DecidableEq
 
 /-- `std::filesystem::create_directories`: `mkdir` for every missing component;
@@ -76,51 +76,56 @@ def mkdirs (sched : Schedule) : List String → St → Bool × St
     if d ∈ st.disk.dirs then mkdirs sched r st
     else
       match sched .mkdir (st.nMkdir + 1) with
-      | some _ => (false, { st with nMkdir := st.nMkdir + 1, fired := st.fired ++ [(.mkdir, st.nMkdir + 1)] })
+      | some _ => (false, { st with nMkdir := st.nMkdir + 1, fired := st.fired ++ [(.mkdir, st.nMkdir + 1, .fail)] })
       | none => mkdirs sched r
           { st with nMkdir := st.nMkdir + 1, disk := { st.disk with dirs := st.disk.dirs ++ [d] } }
 
 /-- result of the `write` calls for one file -/
 structure WR where
-  cnt : Nat                      -- number of `write` calls made so far
-  fired : List (Family × Nat)    -- faults delivered
-  data : Content                 -- bytes that reached the file
+  cnt : Nat                             -- number of `write` calls made so far
+  fired : List (Family × Nat × Mode)    -- faults delivered
+  data : Content                        -- bytes that reached the file
+  failed : Bool                         -- a call returned an error: the stream has badbit
   deriving Repr, DecidableEq
 
-/-- the `write` calls that `os << data` (or the flush at close) makes for one
+/-- the `write` calls that `os << data` (or the flush in `close`) makes for one
     file: libstdc++ retries after a short write until everything is written or
-    a call fails. -/
+    a call fails.  (A short count on fewer than 2 bytes cannot be delivered and
+    is a failure.) -/
 def writeData (sched : Schedule) : (fuel : Nat) → (cnt : Nat) → Content → WR
-  | 0, cnt, _ => ⟨cnt, [], []⟩
+  | 0, cnt, _ => ⟨cnt, [], [], false⟩
   | fuel + 1, cnt, data =>
-    if data = [] then ⟨cnt, [], []⟩
+    if data = [] then ⟨cnt, [], [], false⟩
     else
       match sched .write (cnt + 1) with
-      | none => ⟨cnt + 1, [], data⟩
-      | some .fail => ⟨cnt + 1, [(.write, cnt + 1)], []⟩
+      | none => ⟨cnt + 1, [], data, false⟩
+      | some .fail => ⟨cnt + 1, [(.write, cnt + 1, .fail)], [], true⟩
       | some .short =>
-        if data.length < 2 then ⟨cnt + 1, [(.write, cnt + 1)], []⟩
+        if data.length < 2 then ⟨cnt + 1, [(.write, cnt + 1, .fail)], [], true⟩
         else
           ⟨(writeData sched fuel (cnt + 1) (data.drop (data.length / 2))).cnt,
-           (.write, cnt + 1) :: (writeData sched fuel (cnt + 1) (data.drop (data.length / 2))).fired,
-           data.take (data.length / 2) ++ (writeData sched fuel (cnt + 1) (data.drop (data.length / 2))).data⟩
+           (.write, cnt + 1, .short) :: (writeData sched fuel (cnt + 1) (data.drop (data.length / 2))).fired,
+           data.take (data.length / 2) ++ (writeData sched fuel (cnt + 1) (data.drop (data.length / 2))).data,
+           (writeData sched fuel (cnt + 1) (data.drop (data.length / 2))).failed⟩
       | some .shortfail =>
-        if data.length < 2 then ⟨cnt + 1, [(.write, cnt + 1)], []⟩
-        else ⟨cnt + 1, [(.write, cnt + 1)], data.take (data.length / 2)⟩
+        if data.length < 2 then ⟨cnt + 1, [(.write, cnt + 1, .fail)], [], true⟩
+        else ⟨cnt + 1, [(.write, cnt + 1, .shortfail)], data.take (data.length / 2), true⟩
 
-/-- `~ofstream`: `fclose`; an error is swallowed -/
-def closeFault (sched : Schedule) (k : Nat) : List (Family × Nat) :=
+/-- `os.close()`: `fclose`; an error sets failbit -/
+def closeFault (sched : Schedule) (k : Nat) : List (Family × Nat × Mode) :=
   match sched .close k with
-  | some _ => [(.close, k)]
+  | some _ => [(.close, k, .fail)]
   | none => []
 
-/-- `fs_provider::write_file`; `false` = `throw_error("can't open file")` -/
+/-- `fs_provider::write_file`; `false` = `throw_error` ("can't open file" /
+    "can't write file").  After a write error the truncated file stays. -/
 def writeFile (sched : Schedule) (st : St) (p : String) (data : Content) : Bool × St :=
   match sched .open (st.nOpen + 1) with
-  | some _ => (false, { st with nOpen := st.nOpen + 1, fired := st.fired ++ [(.open, st.nOpen + 1)] })
+  | some _ => (false, { st with nOpen := st.nOpen + 1, fired := st.fired ++ [(.open, st.nOpen + 1, .fail)] })
   | none =>
-    -- created / truncated; the stream state is not inspected after `<<`
-    (true, { st with
+    -- created / truncated; `<<`, `close()`, then the stream state is inspected
+    ((!(writeData sched (data.length + 1) st.nWrite data).failed) && (closeFault sched (st.nClose + 1)).isEmpty,
+     { st with
       nOpen := st.nOpen + 1,
       nWrite := (writeData sched (data.length + 1) st.nWrite data).cnt,
       nClose := st.nClose + 1,
@@ -139,7 +144,7 @@ structure Result where
   exit : Nat
   diag : Bool              -- an `Error:` line was printed
   disk : Disk
-  fired : List (Family × Nat)
+  fired : List (Family × Nat × Mode)
   deriving Repr, DecidableEq
 
 /-- `schema_compiler::compile` + the `catch` in `main` -/
